@@ -547,6 +547,18 @@ def setup():
         log("[setup] warm build via %s reach witness: exit %d" % (pid, rc))
         if rc != 0:
             rc_all = 1
+    # 2b. warm the native replay builds (dev + release) so that a first violation is confirmed quickly
+    env["RUSTFLAGS"] = "--cfg replay --cfg weechess_verif -Awarnings"
+    for crate, feat in (("core", "c20"), ("engine", "c15")):
+        tdir = os.path.join(TARGET, "replay-" + crate)
+        vdriver.ensure_fresh(tdir)
+        for prof in ([], ["--release"]):
+            rc, out = _run(["cargo", "test", "--lib", "--no-run", "--features", feat, "--target-dir", tdir] + prof,
+                           cwd=os.path.join(ROOT, "harness", crate), env=env, timeout=1800)
+            if rc != 0:
+                log("[setup] replay build %s %s FAILED\n%s" % (crate, prof, out[-1500:]))
+                rc_all = 1
+    log("[setup] native replay builds warmed")
     # 3. seed the prerequisite gate
     ok, why = prereq_c09(os.path.join(ROOT, "work"), "thorough")
     log("[setup] C09 gate: %s" % ("ok" if ok else why))
